@@ -8,7 +8,9 @@ from .exec import lib, method, LIBS
 @lib("multiprocessing", "Pool")
 def mp_pool(ex, args, kw):
     ex.ctx.note("pool-created", tuple(args), tuple(kw))
-    return Record("Pool")
+    r = Record("Pool")
+    r.created_here = True       # a pool made by the code under contract (not one the caller holds)
+    return r
 
 
 def sym_map(ex, f, items, ordered=True):
@@ -18,8 +20,9 @@ def sym_map(ex, f, items, ordered=True):
     j = ex.ctx.fresh("task")
     # precondition / exception behaviour of the worker for an arbitrary task: evaluated once here so that obligations
     # raised by the contract (call-site preconditions) are recorded on this path
-    ex.ctx.add_pc(z3.And(j >= 0, j < to_z3(n)))
-    probe = ex.call_value(f, [items.get(j, ex)])
+    # ... for an ARBITRARY task only: nothing after the call may rely on the task list being non-empty
+    with ex.ctx.scoped(z3.And(j >= 0, j < to_z3(n))):
+        ex.call_value(f, [items.get(j, ex)])
 
     def get(i):
         ex.call_depth += 1          # evaluated lazily (possibly from a postcondition): still a callee, never a body
@@ -40,7 +43,9 @@ def _map(ex, self, args, kw):
 
 def _imap(ex, self, args, kw):
     """imap returns an ITERATOR over the ordered results"""
-    return SeqIter(_map(ex, self, args, kw), 0)
+    it = SeqIter(_map(ex, self, args, kw), 0)
+    it.pool = self
+    return it
 
 
 from .exec import METHODS
